@@ -758,20 +758,35 @@ class PendingAugAssign(PendingNode[AugAssign]):
             orelse=fallback,
         )
 
+    def _get_target_object(self, return_list: list[expr], obj: expr) -> expr:
+        """
+        Get the (converted) object expr of a subscript/attribute target
+        The object expr runs only once, so it is saved to a tmp
+        unless it is a name
+        """
+        converted_obj = expr_transf(self.nsp, obj)
+        if isinstance(obj, Name):
+            return converted_obj
+        tmp_obj_name = Name(id=ol_name(OL_AUGASSIGN_OBJ_TMP))
+        return_list.append(NamedExpr(target=tmp_obj_name, value=converted_obj))
+        return tmp_obj_name
+
     def get_result(self) -> list[expr]:
         return_list: list[expr] = []
         tmp_target_name = Name(id=ol_name(OL_AUGASSIGN_TMP))
-        assign_value = expr_transf(self.nsp, self.node.value)
         if isinstance(self.node.target, Name):
+            assign_value = expr_transf(self.nsp, self.node.value)
             target = self.nsp.get_load_name(self.node.target.id)
             return [
-                self._aug_assign_expr(
-                    target,
-                    self.node.op,
-                    assign_value,
-                    fallback=self.nsp.get_assign(
-                        self.node.target.id,
-                        BinOp(left=target, op=self.node.op, right=assign_value),
+                # the target is always rebound,
+                # to the result of the in-place method if there is one
+                self.nsp.get_assign(
+                    self.node.target.id,
+                    self._aug_assign_expr(
+                        target,
+                        self.node.op,
+                        assign_value,
+                        fallback=BinOp(left=target, op=self.node.op, right=assign_value),
                     ),
                 )
             ]
@@ -779,17 +794,16 @@ class PendingAugAssign(PendingNode[AugAssign]):
             # todo: could be optimized if slice is const
             tmp_slice_name = Name(id=ol_name(OL_AUGASSIGN_SLICE_TMP))
             target = self.node.target
-            subscript_parent = expr_transf(self.nsp, target.value)
-
-            slice_expr = target.slice
-            if isinstance(slice_expr, Slice):
-                slice_expr = utils.convert_slice(slice_expr)
+            # the object runs before the slice
+            subscript_parent = self._get_target_object(return_list, target.value)
 
             # save slice expr to a tmp
             return_list.append(
                 NamedExpr(
                     target=tmp_slice_name,
-                    value=expr_transf(self.nsp, slice_expr),
+                    value=utils.convert_subscript_index(
+                        target.slice, lambda node: expr_transf(self.nsp, node)
+                    ),
                 )
             )
 
@@ -807,7 +821,9 @@ class PendingAugAssign(PendingNode[AugAssign]):
 
             # aug assign to tmp
             _assign_body = self._aug_assign_expr(
-                tmp_target_name, self.node.op, assign_value
+                tmp_target_name,
+                self.node.op,
+                expr_transf(self.nsp, self.node.value),
             )
 
             # assign the tmp back to original subscript
@@ -824,7 +840,7 @@ class PendingAugAssign(PendingNode[AugAssign]):
             )
         elif isinstance(self.node.target, Attribute):
             target = self.node.target
-            attr_parent = expr_transf(self.nsp, target.value)
+            attr_parent = self._get_target_object(return_list, target.value)
             return_list.append(
                 NamedExpr(
                     target=tmp_target_name,
@@ -836,7 +852,9 @@ class PendingAugAssign(PendingNode[AugAssign]):
                 )
             )
             _assign_body = self._aug_assign_expr(
-                tmp_target_name, self.node.op, assign_value
+                tmp_target_name,
+                self.node.op,
+                expr_transf(self.nsp, self.node.value),
             )
             return_list.append(
                 Call(
